@@ -587,6 +587,60 @@ func (w *Workspace) structuralC19() *FuncResult {
 			}
 		}
 		_ = fromInit
+		// protobuf decoding merges into its target; a target reused across the records of an export loop leaks the
+		// fields of one record into the next (proto3 omits empty fields from the encoding)
+		{
+			ok, why := true, "every decode on the export path writes into a variable allocated for that record"
+			nDec := 0
+			for fn := range fromExp {
+				loops := map[*ssa.BasicBlock]map[*ssa.BasicBlock]bool{}
+				for _, b := range fn.Blocks {
+					for _, p := range b.Preds {
+						if isBackEdge(p, b) {
+							loops[b] = naturalLoop(b)
+						}
+					}
+				}
+				for _, b := range fn.Blocks {
+					for _, ins := range b.Instrs {
+						ci, isCall := ins.(ssa.CallInstruction)
+						if !isCall {
+							continue
+						}
+						cc := ci.Common()
+						name := ""
+						if cc.IsInvoke() {
+							name = cc.Method.Name()
+						} else if c := cc.StaticCallee(); c != nil {
+							name = c.Name()
+						}
+						if name != "MustUnmarshal" && name != "Unmarshal" {
+							continue
+						}
+						nDec++
+						for _, a := range cc.Args {
+							v := a
+							if mi, isMI := v.(*ssa.MakeInterface); isMI {
+								v = mi.X
+							}
+							al, isAlloc := v.(*ssa.Alloc)
+							if !isAlloc {
+								continue
+							}
+							for h, body := range loops {
+								if body[b] && !body[al.Block()] {
+									ok, why = false, fmt.Sprintf("%s decodes the records of a loop (header block %d) into the variable %s declared outside the loop: fields missing from one record's encoding keep the previous record's values in the export", relName(fn), h.Index, al.Comment)
+								}
+							}
+						}
+					}
+				}
+			}
+			if ok {
+				why = fmt.Sprintf("%s (%d decodes checked)", why, nDec)
+			}
+			res.Obls = append(res.Obls, structural("x/"+mod+".ExportGenesis", "decodes_each_record_into_a_fresh_target", []string{"C19"}, ok, why))
+		}
 		// Validate must tell the records of a list apart exactly as the store does: an exported state lists what the
 		// store held side by side, so a duplicate test on any other key can reject it (or accept a list the import
 		// then collapses)
